@@ -277,6 +277,9 @@ def build(tier, seed):
         triples = sorted(itertools.product(range(nl), repeat=3), key=lambda t: (sum(t), t))
     for i in range(0, len(triples), 8):
         cases.append({'kind': 'tree', 'triples': [list(t) for t in triples[i:i + 8]]})
+    # complex observables with plain-number / very small parts
+    for scale in (1e-12, 1e-7):
+        cases.append({'kind': 'cobs-parts', 'scale': scale})
     # (iv) array mode
     arr_lays = list(itertools.product(range(nl), repeat=2))
     for la, lb in arr_lays:
@@ -318,7 +321,60 @@ def run_case(case):
         run_tree(pe, acc, tier, case)
     elif kind == 'array':
         run_array(pe, anp, acc, tier, case)
+    elif kind == 'cobs-parts':
+        run_cobs_parts(pe, acc, case)
     return acc
+
+
+def run_cobs_parts(pe, acc, case):
+    """Complex observables whose parts are observables of ordinary or very small magnitude or plain numbers (incl. 0), in every
+    combination and both orders: +, -, * equal the complex formula applied to the parts (relative comparison on the scale of the terms)."""
+    cf = list(range(1, 13))
+    scale = case['scale']
+
+    def ob(k, s_):
+        return pe.Obs([s_ * alpha.data('white', cf, alpha.rng('c01cp', k), 1.0 + 0.2 * k, 0.1)], ['A|r1'])
+    parts = {'obs': lambda k: ob(k, 1.0), 'small-obs': lambda k: ob(k, scale), 'number': lambda k: 2.0 - 0.5 * k, 'zero': lambda k: 0.0}
+
+    def ref_of(x):
+        return compare.to_ref(x) if isinstance(x, pe.Obs) else ref.r_const(float(x))
+    for (ra, ia), (rb, ib) in itertools.product(itertools.product(parts, repeat=2), repeat=2):
+        if all(k in ('number', 'zero') for k in (ra, ia)) or not any(k.endswith('obs') for k in (ra, ia, rb, ib)):
+            continue           # the left operand is a CObs with at least one observable part
+        a = pe.CObs(parts[ra](0), parts[ia](1))
+        if rb in ('number', 'zero') and ib in ('number', 'zero'):
+            b = complex(parts[rb](2), parts[ib](3))
+        else:
+            b = pe.CObs(parts[rb](2), parts[ib](3))
+        are, aim, bre, bim = a.real, a.imag, b.real, b.imag
+        for op in ('*', '+', '-'):
+            for order in ('ab', 'ba'):
+                sub = dict(case, a=[ra, ia], b=[rb, ib], op=op, order=order)
+                x, y = (a, b) if order == 'ab' else (b, a)
+                xr, xi, yr, yi = (are, aim, bre, bim) if order == 'ab' else (bre, bim, are, aim)
+                try:
+                    got = x * y if op == '*' else x + y if op == '+' else x - y
+                    if op == '*':
+                        er, ei = xr * yr - xi * yi, xi * yr + xr * yi
+                    elif op == '+':
+                        er, ei = xr + yr, xi + yi
+                    else:
+                        er, ei = xr - yr, xi - yi
+                    bad = None
+                    for pn, g, e in (('real', got.real, er), ('imaginary', got.imag, ei)):
+                        rg, re_ = ref_of(g), ref_of(e)
+                        sc = max(abs(re_['value']), max([np.max(np.abs(list(c.values()))) for c in re_['chains'].values()] + [0.0]), 1e-300)
+                        bad = bad or ref.r_identical(rg, re_, 1e-12, sc)
+                        if bad:
+                            bad = '%s part: %s' % (pn, bad)
+                            break
+                except Exception as ex:
+                    bad = 'raised %s: %s' % (type(ex).__name__, ex)
+                if bad:
+                    acc.fail('cobs-parts:%s' % op, sub, 'CObs(%s, %s) %s CObs/complex(%s, %s) [%s], small scale %g: %s' % (ra, ia, op, rb, ib, order, scale, bad))
+                else:
+                    acc.ok(('cp', scale, ra, ia, rb, ib, op, order), True, 'cobs-parts')
+    acc.sample(dict(case, parts=sorted(parts)))
 
 
 def run_construct(pe, acc, tier, case):
